@@ -17,6 +17,7 @@ import (
 
 	v1 "github.com/crossplane/crossplane/apis/apiextensions/v1"
 	"github.com/crossplane/crossplane/verif/explore"
+	"github.com/crossplane/crossplane/verif/simkube"
 	"github.com/crossplane/crossplane/verif/xrh"
 )
 
@@ -92,7 +93,6 @@ var (
 	xrCRD, claimCRD    = xrh.CRDs(xrd)
 	claimSchema        = schemaOf(claimCRD)
 	xrSchema           = schemaOf(xrCRD)
-	_                  = xrSchema
 	prunedProbeChecked bool
 )
 
@@ -104,11 +104,29 @@ func init() { xrh.UseXRDSchemas(xrd) }
 // a harness error, never a verdict).
 func admitClaim(u *unstructured.Unstructured) {
 	pruning.Prune(u.Object, claimSchema.structural, true)
+	defaulting.PruneNonNullableNullsWithoutDefaults(u.Object, claimSchema.structural)
 	defaulting.Default(u.Object, claimSchema.structural)
 	// Validation looks at the object without metadata noise.
 	if errs := apivalidation.ValidateCustomResource(nil, u.Object, claimSchema.validator); len(errs) > 0 {
 		panic(explore.HarnessError{Msg: fmt.Sprintf("generated claim is not a valid instance of the claim CRD: %v", errs.ToAggregate())})
 	}
+}
+
+// dropNulls is the one piece of the API server's schema coercion the store
+// applies to every write of a claim or XR: nulls of non-nullable fields are
+// removed (unstructuredSchemaCoercer). Unknown fields are deliberately NOT
+// pruned on writes, so that whatever a syncer sends stays visible.
+func dropNulls(op *simkube.AdmissionOp) error {
+	if op.New == nil {
+		return nil
+	}
+	switch op.Key.Kind {
+	case xrh.ClaimGVK.Kind:
+		defaulting.PruneNonNullableNullsWithoutDefaults(op.New.Object, claimSchema.structural)
+	case xrh.XRGVK.Kind:
+		defaulting.PruneNonNullableNullsWithoutDefaults(op.New.Object, xrSchema.structural)
+	}
+	return nil
 }
 
 // ---- alphabets ------------------------------------------------------------
